@@ -192,6 +192,9 @@ macro_rules! slice_spec {
                     }
                 }
             }
+            fn push_read<'a, K: Sink<Self::R>>(k: &mut K, item: RI<'a, Self>) -> K::Out {
+                k.put(item)
+            }
             fn push_all_via<K: BatchSink<Self::R>>(k: &mut K, vs: &[Vec<S::V>], f: &mut Forms) {
                 let os: Vec<Vec<Own<S>>> = vs.iter().map(|v| Self::owned(v)).collect();
                 match f.pick(concat!($label, "(batch)"), &["&Vec<T>", "Vec<T>", "&[T]"]) {
@@ -361,6 +364,9 @@ macro_rules! option_spec {
                     }
                 }
             }
+            fn push_read<'a, K: Sink<Self::R>>(k: &mut K, item: RI<'a, Self>) -> K::Out {
+                k.put(item)
+            }
             fn push_all_via<K: BatchSink<Self::R>>(k: &mut K, vs: &[Option<S::V>], f: &mut Forms) {
                 let os: Vec<Option<Own<S>>> = vs.iter().map(|v| Self::owned(v)).collect();
                 match f.pick("Option(batch)", &["&Option<T>", "Option<T>"]) {
@@ -520,6 +526,9 @@ macro_rules! result_spec {
                         k.put(b)
                     }
                 }
+            }
+            fn push_read<'a, K: Sink<Self::R>>(k: &mut K, item: RI<'a, Self>) -> K::Out {
+                k.put(item)
             }
             fn push_all_via<K: BatchSink<Self::R>>(k: &mut K, vs: &[Self::V], f: &mut Forms) {
                 let os: Vec<Result<Own<A>, Own<B>>> = vs.iter().map(|v| Self::owned(v)).collect();
@@ -686,6 +695,9 @@ macro_rules! tuple_spec {
                         k.put(b)
                     }
                 }
+            }
+            fn push_read<'a, K: Sink<Self::R>>(k: &mut K, item: RI<'a, Self>) -> K::Out {
+                k.put(item)
             }
             fn push_all_via<K: BatchSink<Self::R>>(k: &mut K, vs: &[Self::V], f: &mut Forms) {
                 let os: Vec<Own<Self>> = vs.iter().map(|v| Self::owned(v)).collect();
@@ -874,6 +886,9 @@ where
     fn push_via<K: Sink<Self::R>>(k: &mut K, v: &S::V, f: &mut Forms) -> K::Out {
         S::push_via(&mut CipSink::<K, S::R, O>(k, PhantomData), v, f)
     }
+    fn push_read<'a, K: Sink<Self::R>>(k: &mut K, item: RI<'a, Self>) -> K::Out {
+        S::push_read(&mut CipSink::<K, S::R, O>(k, PhantomData), item)
+    }
     fn push_all_via<K: BatchSink<Self::R>>(k: &mut K, vs: &[S::V], f: &mut Forms) {
         S::push_all_via(&mut CipBatch::<K, S::R, O>(k, PhantomData), vs, f)
     }
@@ -1052,6 +1067,9 @@ where
             }
         }
     }
+    fn push_read<'a, K: Sink<Self::R>>(k: &mut K, item: RI<'a, Self>) -> K::Out {
+        k.put(item)
+    }
     fn push_all_via<K: BatchSink<Self::R>>(k: &mut K, vs: &[Vec<S::V>], f: &mut Forms) {
         let os: Vec<Vec<Own<S>>> = vs.iter().map(|v| Self::owned(v)).collect();
         match f.pick("Columns(batch)", &["&Vec<T>", "Vec<T>", "&[T]"]) {
@@ -1160,6 +1178,7 @@ pub trait CollapseForms: Spec {
         vs: &[Self::V],
         f: &mut Forms,
     );
+    fn collapse_push_read<'a, K: Sink<CollapseSequence<Self::R>>>(k: &mut K, item: RI<'a, Self>) -> K::Out;
 }
 
 macro_rules! collapse_forms_str {
@@ -1181,6 +1200,9 @@ macro_rules! collapse_forms_str {
                         k.put(tmp.index(i))
                     }
                 }
+            }
+            fn collapse_push_read<'a, K: Sink<CollapseSequence<Self::R>>>(k: &mut K, item: RI<'a, Self>) -> K::Out {
+                k.put(item)
             }
             fn collapse_push_all_via<K: BatchSink<CollapseSequence<Self::R>>>(
                 k: &mut K,
@@ -1238,6 +1260,9 @@ macro_rules! collapse_forms_bytes {
                     }
                 }
             }
+            fn collapse_push_read<'a, K: Sink<CollapseSequence<Self::R>>>(k: &mut K, item: RI<'a, Self>) -> K::Out {
+                k.put(item)
+            }
             fn collapse_push_all_via<K: BatchSink<CollapseSequence<Self::R>>>(
                 k: &mut K,
                 vs: &[Vec<u8>],
@@ -1294,6 +1319,9 @@ impl<T: CollapsePrim> CollapseForms for Mirror<T> {
         _f: &mut Forms,
     ) {
         k.put_all(vs.iter().map(T::from_v))
+    }
+    fn collapse_push_read<'a, K: Sink<CollapseSequence<Self::R>>>(k: &mut K, item: RI<'a, Self>) -> K::Out {
+        k.put(item)
     }
 }
 
@@ -1365,6 +1393,9 @@ impl<S: CollapseForms> Spec for Collapse<S> {
     }
     fn push_via<K: Sink<Self::R>>(k: &mut K, v: &S::V, f: &mut Forms) -> K::Out {
         S::collapse_push_via(k, v, f)
+    }
+    fn push_read<'a, K: Sink<Self::R>>(k: &mut K, item: RI<'a, Self>) -> K::Out {
+        S::collapse_push_read(k, item)
     }
     fn push_all_via<K: BatchSink<Self::R>>(k: &mut K, vs: &[S::V], f: &mut Forms) {
         S::collapse_push_all_via(k, vs, f)
